@@ -382,6 +382,12 @@ func (rl *respDeserializer) peekBulkLine(length int) (line respBulkString, valid
 		panic("already determined the next line")
 	}
 
+	if length < 0 || length > len(rl.content)-rl.pos-2 {
+		// negative, or more than has been received so far
+		valid = false
+		return
+	}
+
 	rl.nextPos = rl.pos + length + 2
 	if rl.nextPos > len(rl.content) {
 		valid = false
@@ -426,8 +432,18 @@ func (rl *respDeserializer) getDouble(line string) (value respDouble, valid bool
 	return respDouble(value64), true
 }
 
+// Every element takes at least one byte of input, so a declared element count
+// beyond the remaining input can't be satisfied yet. This bounds the size used
+// for pre-allocation; the parse loops still use the declared count.
+func (rl *respDeserializer) allocCount(count int) int {
+	if remaining := len(rl.content) - rl.pos; count > remaining {
+		return remaining
+	}
+	return count
+}
+
 func (rl *respDeserializer) getNextArray(count int) (value respArray, valid bool) {
-	a := make(respArray, 0, count)
+	a := make(respArray, 0, rl.allocCount(count))
 
 	for i := 0; i < count; i++ {
 		var v respValue
@@ -441,7 +457,7 @@ func (rl *respDeserializer) getNextArray(count int) (value respArray, valid bool
 }
 
 func (rl *respDeserializer) getNextMap(pairs int) (value respMap, valid bool) {
-	m := newRespMapSized(pairs)
+	m := newRespMapSized(rl.allocCount(pairs))
 
 	for i := 0; i < pairs; i++ {
 		var k, v respValue
@@ -460,7 +476,7 @@ func (rl *respDeserializer) getNextMap(pairs int) (value respMap, valid bool) {
 }
 
 func (rl *respDeserializer) getNextAttributeMap(pairs int) (value respAttributeMap, valid bool) {
-	m := make(respAttributeMap, pairs)
+	m := make(respAttributeMap, rl.allocCount(pairs))
 
 	for i := 0; i < pairs; i++ {
 		var k, v respValue
@@ -479,7 +495,7 @@ func (rl *respDeserializer) getNextAttributeMap(pairs int) (value respAttributeM
 }
 
 func (rl *respDeserializer) getNextSet(count int) (value respSet, valid bool) {
-	s := make(respSet, count)
+	s := make(respSet, rl.allocCount(count))
 
 	for i := 0; i < count; i++ {
 		var v respValue
@@ -494,7 +510,7 @@ func (rl *respDeserializer) getNextSet(count int) (value respSet, valid bool) {
 }
 
 func (rl *respDeserializer) getNextPush(count int) (value respPush, valid bool) {
-	a := make([]respValue, 0, count)
+	a := make([]respValue, 0, rl.allocCount(count))
 	p := respPush{}
 
 	var v respValue
